@@ -149,6 +149,22 @@ Theorem C04_sizes :
 Proof. exact sizes_all. Qed.
 Print Assumptions C04_sizes.
 
+(* per kex algorithm of Transport._kex_info (generated table): the hash _compute_key selects -- the class's
+   hash_algo, or the sha1 fallback when it declares none -- has a digest length in 1..64, and for any
+   hash function of that length the derivation is the RFC stream *)
+Theorem C04_rfc_per_kex :
+  forall name declared,
+    In (name, declared) gen_kex_hashes ->
+    let hlz := kex_hash_len declared in
+    1 <= hlz <= 64 /\
+    forall (hash : list Z -> list Z),
+      (forall m, length (hash m) = Z.to_nat hlz) ->
+      forall (K : Z) (kb H sid : list Z) (X n : Z) (i : nat),
+        add_mpint K = Ok kb -> 0 <= n -> n <= Z.of_nat (S i) * hlz ->
+        compute_key hash K H sid X n = Ok (firstn (Z.to_nat n) (rfc_upto hash (kb ++ H) X sid i)).
+Proof. exact rfc_per_kex. Qed.
+Print Assumptions C04_rfc_per_kex.
+
 (* non-vacuity: a concrete hash of fixed positive length, a concrete K/H/session id; the model
    computes a 40-byte key from a 3-byte hash (14 turns of the loop), and the keys of the two
    directions differ *)
